@@ -501,7 +501,9 @@ Theorem lstep_new_refines (w : world) p o r :
   match o with OMerge _ _ _ => False | _ => True end ->
   lstep p o = LNew r -> snd (step w o) = OkNew -> fst (step w o) = push w (abs r).
 Proof.
-  intros Hp Hw Hno Hl Hs. destruct o; cbn [lstep] in Hl; try discriminate; try contradiction; cbn [step] in *.
+  intros Hp Hw Hno Hl Hs. destruct o; cbn [lstep] in Hl; try discriminate; try contradiction.
+  1: solve [repeat match type of Hl with context [match ?x with _ => _ end] => destruct x end; discriminate].
+  all: cbn [step] in *.
   - (* OSelect *)
     destruct (nth_error p t) as [tb|] eqn:Et; [|discriminate].
     rewrite (get_abs w p t tb Hp Et) in *. rewrite slot_of_abs in *.
@@ -552,9 +554,10 @@ Qed.
 
 Theorem lstep_upd_refines (w : world) p o i r :
   pool w = map abs p -> winv p ->
+  match o with OSetCell _ _ _ _ => False | _ => True end ->
   lstep p o = LUpd i r -> snd (step w o) = OkUnit -> fst (step w o) = put w i (abs r).
 Proof.
-  intros Hp Hw Hl Hs. destruct o; cbn [lstep] in Hl; try discriminate.
+  intros Hp Hw Hno Hl Hs. destruct o; cbn [lstep] in Hl; try discriminate; try contradiction.
   all: try solve [repeat match type of Hl with context [match ?x with _ => _ end] => destruct x end; discriminate].
   - (* OSetLength *)
     destruct (nth_error p t) as [tb|] eqn:Et; [|discriminate].
@@ -798,4 +801,16 @@ Proof.
   assert (Eall : all_some (map (fun c => Some (slot_of_col c)) cols) = Some (map slot_of_col cols)).
   { clear. induction cols as [|c cols IH]; [reflexivity|]. cbn [map all_some]. rewrite IH. reflexivity. }
   rewrite Eall. cbn [fst]. destruct o; reflexivity.
+Qed.
+
+(* ---------- col[selection] = ...: the addressed positions, by either lookup algorithm, are the positions of
+   the selection's row ids in the table (this is what makes selection-addressed writes correct for ANY row order) ---------- *)
+Theorem sel_positions_refines t c key :
+  inv_b t = true -> In c (l_cols t) ->
+  (forall k, In k (ia (l_rowid key)) -> In k (ia (l_rowid t))) ->
+  sel_positions c key = all_some (map (fun r => pos_of r (ia (l_rowid t))) (ia (l_rowid key))).
+Proof.
+  intros Hinv Hc Hin. destruct (inv_b_facts t Hinv) as (Hnd & _ & _ & Hcols & _).
+  rewrite Forall_forall in Hcols. unfold sel_positions.
+  apply positions_by_id_spec; [assumption|apply Hcols; assumption|assumption].
 Qed.
